@@ -3,7 +3,10 @@
 import json, os
 V = os.path.dirname(os.path.abspath(__file__))
 src = json.load(open(os.path.join(V, "manifest_src.json")))
-rows = [l.rstrip("\n").split("\t") for l in open(os.path.join(V, "checks.tsv")) if l.strip() and not l.startswith("#")]
+import glob
+metas = [json.load(open(p)) for p in sorted(glob.glob(os.path.join(V, "meta", "*.json")))]
+rows = [[m["id"]] for m in metas]
+src["checks"] = {m["id"]: m for m in metas}
 ids = [json.loads(l)["id"] for l in open(os.path.join(V, "properties.jsonl"))]
 built = {r[0] for r in rows}
 checks = []
